@@ -39,6 +39,12 @@ func init() {
 	for _, a := range []string{"$", "*", "^", "~", "|"} {
 		badPairs[[2]string{a, "="}] = true
 	}
+	// `#-` is a hash, `--` an ident, `--->` an ident followed by `>`, `1%` a percentage
+	for _, a := range []string{"#", "-"} {
+		badPairs[[2]string{a, "-"}] = true
+	}
+	badPairs[[2]string{"-", "-->"}] = true
+	badPairs[[2]string{"number", "%"}] = true
 	badPairs[[2]string{"ident", "() block"}] = true
 	badPairs[[2]string{"|", "|"}] = true
 	badPairs[[2]string{"/", "*"}] = true
